@@ -88,3 +88,21 @@ void v_exit(int);
 #define syscall(...)   v_syscall(__VA_ARGS__)
 #define dlsym(...)     v_dlsym(__VA_ARGS__)
 #define exit(...)      v_exit(__VA_ARGS__)
+
+/* pthread (vthread.c) */
+pthread_t v_pthread_self(void);
+int v_pthread_equal(pthread_t, pthread_t);
+int v_pthread_once(pthread_once_t *, void (*)(void));
+int v_pthread_mutexattr_init(pthread_mutexattr_t *);
+int v_pthread_mutexattr_settype(pthread_mutexattr_t *, int);
+int v_pthread_mutex_init(pthread_mutex_t *, const pthread_mutexattr_t *);
+int v_pthread_mutex_lock(pthread_mutex_t *);
+int v_pthread_mutex_unlock(pthread_mutex_t *);
+#define pthread_self(...)              v_pthread_self(__VA_ARGS__)
+#define pthread_equal(...)             v_pthread_equal(__VA_ARGS__)
+#define pthread_once(...)              v_pthread_once(__VA_ARGS__)
+#define pthread_mutexattr_init(...)    v_pthread_mutexattr_init(__VA_ARGS__)
+#define pthread_mutexattr_settype(...) v_pthread_mutexattr_settype(__VA_ARGS__)
+#define pthread_mutex_init(...)        v_pthread_mutex_init(__VA_ARGS__)
+#define pthread_mutex_lock(...)        v_pthread_mutex_lock(__VA_ARGS__)
+#define pthread_mutex_unlock(...)      v_pthread_mutex_unlock(__VA_ARGS__)
